@@ -1185,6 +1185,32 @@ func ruleGenOnlyIncremented(c *Ctx, r *R) {
 		for _, fn := range c.funcsOfPkg(t.rel) {
 			name := c.nameOf(fn)
 			instrs(fn, func(_ *ssa.BasicBlock, _ int, in ssa.Instruction) {
+				// d.gen.bump(): the counter is a small type of its own and is written by its methods, which are handed the
+				// field's address - every store such a method makes through its receiver must be *g + 1
+				if call, isCall := in.(*ssa.Call); isCall && len(call.Call.Args) > 0 {
+					if fa, ok := call.Call.Args[0].(*ssa.FieldAddr); ok && isNamedType(fa.X.Type(), t.rel, t.typ) && fieldName(fa.X.Type(), fa.Field) == "gen" {
+						if cal := staticCallee(&call.Call); cal != nil && storesThroughParam0(cal) {
+							n++
+							onlyInc := true
+							instrs(cal, func(_ *ssa.BasicBlock, _ int, hin ssa.Instruction) {
+								hst, ok := hin.(*ssa.Store)
+								if !ok {
+									return
+								}
+								bin, ok := resolveVal(hst.Val).(*ssa.BinOp)
+								if !ok || bin.Op != token.ADD || !isConstInt(bin.Y, 1) {
+									onlyInc = false
+									return
+								}
+								if ld, ok := resolveVal(bin.X).(*ssa.UnOp); !ok || ld.Op != token.MUL || ld.X != ssa.Value(cal.Params[0]) {
+									onlyInc = false
+								}
+							})
+							r.ok(onlyInc, name+"|gen-store#"+itoa(n), call.Pos(), "the modification counter is assigned something other than gen + 1 (by "+fname(cal)+"): a counter that can go back makes a modified container look unmodified to a live iterator")
+						}
+					}
+					return
+				}
 				st, ok := in.(*ssa.Store)
 				if !ok {
 					return
